@@ -3,9 +3,10 @@
 (fresh scratch worktree of /repo HEAD + seeded/<name>/patch.diff), update meta.json (check, caught), remove the worktree."""
 import json, os, subprocess, sys, time
 name = sys.argv[1]; tier = sys.argv[2] if len(sys.argv) > 2 else "quick"
+other = sys.argv[3] if len(sys.argv) > 3 else None   # run ANOTHER property's check against this seed (result printed, meta.json: cross_checks)
 d = os.path.join("/verif/seeded", name)
 meta = json.load(open(os.path.join(d, "meta.json")))
-pid = meta["property"]
+pid = other or meta["property"]
 env = dict(os.environ, GOFLAGS="-mod=mod", GOPROXY="off", GOSUMDB="off", GOTOOLCHAIN="local")
 wt = "/tmp/rerun-%s-%d" % (name.lower(), os.getpid())
 subprocess.run(["git", "-C", "/repo", "worktree", "add", "-q", wt, "HEAD"], check=True)
@@ -26,10 +27,13 @@ try:
     if rp and os.path.exists(rp[0]):
         r = json.load(open(rp[0]))
         rec["replay"] = {k: (v if not isinstance(v, str) else v[:700]) for k, v in r.items() if k in ("kind", "input", "what_no_longer_checks", "note", "category")}
-    meta.setdefault("check_history", []).append(meta.get("check"))
-    meta["check"] = rec; meta["caught"] = c.returncode == 1
+    if other:
+        meta.setdefault("cross_checks", {})[other] = rec
+    else:
+        meta.setdefault("check_history", []).append(meta.get("check"))
+        meta["check"] = rec; meta["caught"] = c.returncode == 1
     json.dump(meta, open(os.path.join(d, "meta.json"), "w"), indent=1)
-    print(json.dumps({"name": name, "caught": meta["caught"], "check": rec}, indent=1))
+    print(json.dumps({"name": name, "property_checked": pid, "exit": c.returncode, "check": rec}, indent=1))
 finally:
     subprocess.run(["git", "-C", "/repo", "worktree", "remove", "--force", wt])
     subprocess.run("flock /verif/.work/build.lock sh -c './harness/build.sh >/dev/null 2>&1; .work/bin/vh gen lean/ControlModel/Gen >/dev/null'", shell=True, cwd="/verif", env=env)
